@@ -215,6 +215,8 @@ class C05(Prop):
         rng_n = 26 if tier == "quick" else 70
         if tier == "quick":
             progs = progs[:2]
+        else:       # thorough: also the two-thread programs with a prelude / a regeneration rate / ticks (no observers)
+            progs += [p for p in self.PROGRAMS if len(p[2]) == 2 and len(p) == 5 and not p[3]]
         for p in progs:
             for i in range(0, rng_n):
                 for j in range(0, rng_n, 1 if tier != "quick" else 2):
